@@ -192,7 +192,18 @@ class Where(AbstractUnwrappable[Array]):
     cond: ArrayLike
     if_true: ArrayLike | AbstractUnwrappable[Array]
     if_false: ArrayLike | AbstractUnwrappable[Array]
-    _dummy: ClassVar[None] = None
+    _dummy: Int[Scalar, ""]
+
+    def __init__(
+        self,
+        cond: ArrayLike,
+        if_true: ArrayLike | AbstractUnwrappable[Array],
+        if_false: ArrayLike | AbstractUnwrappable[Array],
+    ):
+        self.cond = cond
+        self.if_true = if_true
+        self.if_false = if_false
+        self._dummy = jnp.empty((), int)  # infers vmapped dimensions (operands may differ in rank)
 
     def unwrap(self):
         return jnp.where(self.cond, self.if_true, self.if_false)
